@@ -376,6 +376,10 @@ func (s *Server) runKeepalive() {
 			select {
 			case s.requests <- req:
 			case <-s.aborting:
+			case <-s.stopping:
+				// Nobody may be reading the requests anymore (the writer failed and its abort
+				// waits for the lock Stop holds while it waits for us).
+				return
 			}
 		case <-s.stopping:
 			return
